@@ -1,0 +1,11 @@
+//go:build verif
+
+package http
+
+// Contracts for the verif engine (/verif). Comment-only: no code is compiled
+// from this file with or without the tag.
+
+//@ func (*HttpWorker).Process
+//@ props C19
+//@ nopanic C13
+//@ requires w != nil && w.client != nil
